@@ -35,8 +35,16 @@ fn cj(v: Value) -> CanonicalJsonValue {
     CanonicalJsonValue::try_from(v).unwrap()
 }
 
+/// The ways a signature that is "not intact" in the model is realised: a flipped bit early / in the last byte, one byte
+/// appended, the last byte dropped, the signature written twice, a signature of the right length for other content.
+const DAMAGE_MODES: usize = 6;
+
 /// Concrete object for a model state.
 fn build(obj: &Value) -> CanonicalJsonObject {
+    build_with(obj, 0)
+}
+
+fn build_with(obj: &Value, damage: usize) -> CanonicalJsonObject {
     let mut o = CanonicalJsonObject::new();
     o.insert("a".into(), cj(json!(if obj["payload"] == "p0" { 0 } else { 1 })));
     o.insert("b".into(), cj(json!("const")));
@@ -60,7 +68,14 @@ fn build(obj: &Value) -> CanonicalJsonObject {
                             if slot["present"].as_bool().unwrap() {
                                 let mut sig = ref_sig(slot["key"].as_str().unwrap(), slot["msg"].as_str().unwrap());
                                 if !slot["intact"].as_bool().unwrap() {
-                                    sig[5] ^= 1;
+                                    match damage {
+                                        0 => sig[5] ^= 1,
+                                        1 => sig[63] ^= 0x80,
+                                        2 => sig.push(0),
+                                        3 => { sig.pop(); }
+                                        4 => { let c = sig.clone(); sig.extend(c); }
+                                        _ => sig = SigningKey::from_bytes(&[seed_of(slot["key"].as_str().unwrap()); 32]).sign(b"{\"some\":\"other content\"}").to_bytes().to_vec(),
+                                    }
                                 }
                                 set.insert(format!("ed25519:{k}"), cj(json!(b64(&sig))));
                             }
@@ -108,10 +123,18 @@ fn run_case(c: &Value) -> Value {
                 }
                 map.insert(e.clone(), set);
             }
-            match guard(|| verify_json(&map, &pre).is_ok()) {
-                Ok(ok) => json!({"res": if ok { "ok" } else { "err" }}),
-                Err(p) => json!({"res": "panic", "panic": p}),
+            // every realisation of a damaged signature must be judged alike: the most permissive answer is reported
+            let damaged = c["pre"].to_string().contains("\"intact\":false");
+            let mut res = json!({"res": "err"});
+            for mode in 0..(if damaged { DAMAGE_MODES } else { 1 }) {
+                let pre = build_with(&c["pre"], mode);
+                match guard(|| verify_json(&map, &pre).is_ok()) {
+                    Ok(true) => { res = json!({"res": "ok", "damage_mode": mode}); break; }
+                    Ok(false) => {}
+                    Err(p) => { res = json!({"res": "panic", "panic": p, "damage_mode": mode}); break; }
+                }
             }
+            res
         }
         _ => unreachable!(),
     }
